@@ -198,5 +198,23 @@ func GenFileScript(r *Rng, hist map[string]int) []string {
 		hist["append_after_reopen"]++
 	}
 	out = append(out, "F close")
+	if r.Chance(1, 8) {
+		// the same script on a file that begins with a sparse region of about 4 GiB (or 8, 12): every
+		// position, size and read must come out as at offset 0, shifted by whole blocks (the model runs at
+		// offset 0; sequential scans, which would have to cross the empty region, are left out)
+		far := r.Pick(131071, 131071, 131072, 131073, 262143, 393216)
+		var o2 []string
+		for i, l := range out {
+			if l == "F scan" || l == "F bytes" {
+				continue
+			}
+			o2 = append(o2, l)
+			if i == 0 {
+				o2 = append(o2, fmt.Sprintf("F far %d", far))
+			}
+		}
+		hist["file_beyond_4GiB"]++
+		return o2
+	}
 	return out
 }
